@@ -322,6 +322,14 @@ func runCheck(o checkOpts) int {
 				rep["replay_on_real_code"] = rep["witness_search"]
 			}
 		}
+		if suffix != "" && ob.fx == nil && !ob.Canary && ob.HarnessJob == nil {
+			// a table lemma or SMT lemma: boundary inputs may be listed under the obligation's name
+			if recipe, detail, ok := p.tryWitnessListsFor(o, ob.Name); ok {
+				rep["replay_on_real_code"] = detail
+				rep["replay_recipe"] = recipe
+				suffix = ""
+			}
+		}
 		if suffix != "" && ob.fx != nil && !ob.Canary {
 			// boundary inputs listed for this function in the spec files (witnesslist)
 			if recipe, detail, ok := p.tryWitnessLists(o, ob); ok {
